@@ -76,9 +76,9 @@ func (p *Proxy) FetchReference(ctx context.Context, reference string) (ocispec.D
 	go func() {
 		defer wg.Done()
 		pushErr = p.Cache.Push(ctx, target, pr)
-		if pushErr != nil {
-			pr.CloseWithError(pushErr)
-		}
+		// nothing reads the pipe any more: fail further writes instead of
+		// blocking them (e.g. when the source delivers trailing data)
+		pr.CloseWithError(pushErr)
 	}()
 	closer := ioutil.CloserFunc(func() error {
 		rcErr := rc.Close()
